@@ -21,6 +21,7 @@ CTXA_MACROS = [
     ('mend', ['m', 's']),               # optional marker as the LAST declared argument
     ('mtx', [('m', 'text'), 'm']),      # text-mode argument followed by an ordinary one
     ('mmx', [('m', 'math'), 'm']),      # math-mode argument followed by an ordinary one
+    ('setx', 'after-delta'),            # no arguments; its spec returns a parsing-state delta for what follows
 ]
 CTXA_ENVS = [
     ('ea', ['{']),
@@ -45,7 +46,18 @@ def ctx_a(with_unknown=True):
             delta = ParsingStateDeltaLeaveMathMode() if a[1] == 'text' else ParsingStateDeltaEnterMathMode()
             return LatexArgumentSpec(a[0], parsing_state_delta=delta)
         return a
-    macros = [macrospec.MacroSpec(n, arguments_spec_list=[_arg(x) for x in a]) for (n, a) in CTXA_MACROS]
+    from pylatexenc.latexnodes import ParsingStateDelta
+
+    def _after(parsed_node, latex_walker, **kwargs):
+        # a state change that is local to the enclosing group / formula / environment, like a TeX assignment;
+        # it alters nothing the generated documents can observe (DEL is never generated)
+        return ParsingStateDelta(set_attributes=dict(forbidden_characters='\x7f'))
+    macros = []
+    for (n, a) in CTXA_MACROS:
+        if a == 'after-delta':
+            macros.append(macrospec.MacroSpec(n, arguments_spec_list=[], make_after_parsing_state_delta=_after))
+        else:
+            macros.append(macrospec.MacroSpec(n, arguments_spec_list=[_arg(x) for x in a]))
     envs = [macrospec.EnvironmentSpec(n, arguments_spec_list=list(a)) for (n, a) in CTXA_ENVS]
     envs.append(macrospec.EnvironmentSpec('emath', arguments_spec_list=[],
                                           body_parsing_state_delta=ParsingStateDeltaEnterMathMode()))
